@@ -1308,6 +1308,12 @@ func (ex *Exec) index(st *State, fr *Frame, x *ssa.Index) {
 			return
 		}
 		fr.Env[x] = ex.navLoad(c, []PathElem{{Field: -1, Index: idx}})
+	case *StrV:
+		res, dead := ex.strIndex(st, x, c, ex.eval(st, fr, x.Index))
+		if dead {
+			return
+		}
+		fr.Env[x] = res
 	default:
 		panic(unsupported(fmt.Sprintf("Index on %T", v)))
 	}
